@@ -14,3 +14,6 @@ func VerifFindMembersByTopic(members []GroupMember) map[string][]GroupMember {
 func VerifFindPartitions(topic string, partitions []Partition) []int {
 	return findPartitions(topic, partitions)
 }
+
+// VerifExtractTopics exposes extractTopics (reader.go), the topics the group leader asks the cluster about.
+func VerifExtractTopics(members []GroupMember) []string { return extractTopics(members) }
